@@ -770,6 +770,16 @@ func (o *oracle) checkAcks() {
 			o.v("C07", "ack-differs", "item %d acknowledged as idx=%d ts=%d and as idx=%d ts=%d within one cache epoch", s.Item.ID, prev[0], prev[1], s.Index, s.Time)
 		}
 		o.ackSeen[k] = [2]int64{s.Index, s.Time}
+		// ... and after the recompute-cache tool rebuilt the cache from storage,
+		// every entry it read is answered with its first occurrence
+		if in.recomputed != nil && in.recomputedEpoch == s.cacheEpoch {
+			if want, ok := in.recomputed[s.Item.Key]; ok {
+				w.sim.Probe("recompute.dedup.checked")
+				if want != [2]int64{s.Index, s.Time} {
+					o.v("C07", "recomputed-cache-miss", "item %d is leaf %d (ts %d) in the tiles recompute-cache rebuilt the cache from, but its resubmission was acknowledged as idx=%d ts=%d", s.Item.ID, want[0], want[1], s.Index, s.Time)
+				}
+			}
+		}
 	}
 }
 
